@@ -198,13 +198,46 @@ class Space:
         return cmax * ((self.deg / self.hmin) if der else 1.0) + 1e-300
 
 
-def random_space(rng, deg, periodic=None, kind=None, force_general=False):
+def build(chk, deg, periodic, kind, breaks, uniform_flag=None):
+    """construct the real BSplines object under the guard (its constructor already calls nu_find_span / nu_basis_funs
+    at the ends of the domain); on a hang / exception pin the failure down on the raw span search"""
+    case = {'entry': 'BSplines.__init__', 'degree': deg, 'periodic': periodic, 'kind': kind,
+            'uniform_flag': uniform_flag, 'breaks_hex': hxs(breaks), 'breaks': [float(v) for v in breaks]}
+    try:
+        return guarded(chk, 'BSplines.__init__', case, lambda: Space(deg, periodic, kind, breaks, uniform_flag))
+    finally:
+        if chk.failures and chk.failures[-1]['case'] is case:
+            n0 = len(chk.failures)
+            probe_find_span(chk, deg, periodic, breaks)
+            if len(chk.failures) > n0:      # the sharper failing input first
+                chk.failures[n0 - 1], chk.failures[-1] = chk.failures[-1], chk.failures[n0 - 1]
+
+
+def probe_find_span(chk, deg, periodic, breaks):
+    from pygyro.splines.splines import make_knots
+    from pygyro.splines.spline_eval_funcs import nu_find_span
+    kn = make_knots(np.asarray(breaks, float), deg, periodic)
+    for x in breaks:
+        case = {'entry': 'nu_find_span', 'knots_hex': hxs(kn), 'knots': [float(v) for v in kn], 'degree': deg, 'x': float(x)}
+        try:
+            with deadline(2.0):
+                nu_find_span(kn, deg, float(x))
+        except Hang:
+            chk.fail('C07:hang:nu_find_span', 'nu_find_span does not terminate for x in the closed domain', case)
+            return
+        except Exception as e:  # noqa: BLE001
+            chk.fail('C07:raise:nu_find_span', 'nu_find_span raised %s' % type(e).__name__, case)
+            return
+
+
+def random_space(chk, deg, periodic=None, kind=None, force_general=False):
+    rng = chk.rng
     periodic = rng.random() < 0.5 if periodic is None else periodic
     kind = rng.choice(KINDS) if kind is None else kind
     lo = max(deg, 1) if periodic else 1
     nc = rng.randint(lo, lo + 7)
     br = make_breaks(rng, kind, nc)
-    return Space(deg, periodic, kind, br, uniform_flag=False if force_general else None)
+    return build(chk, deg, periodic, kind, br, uniform_flag=False if force_general else None)
 
 
 # ----------------------------------------------------------------------------------------------
@@ -459,7 +492,9 @@ def check_cubic_vs_general(chk, sp, rng):
     from pygyro.splines.splines import Spline1D
     if not (sp.cu and sp.periodic):
         return
-    g = Space(3, True, sp.kind, sp.breaks, uniform_flag=False)
+    g = build(chk, 3, True, sp.kind, sp.breaks, uniform_flag=False)
+    if g is None:
+        return
     assert not g.cu
     c = sp.wrap(np.array([rng.uniform(-2, 2) for _ in range(sp.ncoef)]))
     s1, s2 = Spline1D(sp.b), Spline1D(g.b)
@@ -690,7 +725,9 @@ def run(chk):
                         for kind in KINDS:
                             if deg > 5 and rep > 0:
                                 continue
-                            sp = random_space(rng, deg, periodic, kind)
+                            sp = random_space(chk, deg, periodic, kind)
+                            if sp is None:
+                                continue
                             check_1d(chk, drv, sp, rng, chk.n(4, 10))
                             if deg <= 5 and (rep > 0 or kind in (KINDS[1], KINDS[2]) or deg == 3):
                                 check_getitem(chk, drv, sp, rng, chk.n(1, 3))
@@ -699,7 +736,9 @@ def run(chk):
                                     check_cu_kernels(chk, drv, sp, rng, chk.n(3, 8))
                                     check_cubic_vs_general(chk, sp, rng)
                                     # the general kernels on the same breakpoints (uniform flag off)
-                                    check_nu_kernels(chk, drv, Space(3, periodic, kind, sp.breaks, uniform_flag=False), rng, 2)
+                                    g = build(chk, 3, periodic, kind, sp.breaks, uniform_flag=False)
+                                    if g is not None:
+                                        check_nu_kernels(chk, drv, g, rng, 2)
                                 else:
                                     check_nu_kernels(chk, drv, sp, rng, chk.n(2, 6))
             # smallest spaces (one cell clamped = Bezier; periodic with ncells = degree)
@@ -707,21 +746,26 @@ def run(chk):
                 for periodic in (False, True):
                     nc = deg if periodic else 1
                     kind = rng.choice(KINDS)
-                    sp = Space(deg, periodic, kind, make_breaks(rng, kind, nc))
+                    sp = build(chk, deg, periodic, kind, make_breaks(rng, kind, nc))
+                    if sp is None:
+                        continue
                     check_1d(chk, drv, sp, rng, 3)
                     check_getitem(chk, drv, sp, rng, 1)
             # 2-D: general x general (independent degree / boundary / kind), cubic x cubic
             for it in range(chk.n(14, 90)):
                 if it % 4 == 3:
-                    s1 = random_space(rng, 3, kind=rng.choice(KINDS[0::2]))
-                    s2 = random_space(rng, 3, kind=rng.choice(KINDS[0::2]))
+                    s1 = random_space(chk, 3, kind=rng.choice(KINDS[0::2]))
+                    s2 = random_space(chk, 3, kind=rng.choice(KINDS[0::2]))
                 else:
                     d1, d2 = rng.randint(1, 5), rng.randint(1, 5)
-                    s1 = random_space(rng, d1, force_general=(d1 == 3))
-                    s2 = random_space(rng, d2, force_general=(d2 == 3))
                     if it % 4 == 0:   # non-uniform breakpoints in both directions, different degrees
-                        s1 = random_space(rng, d1, kind=rng.choice(KINDS[1::2]))
-                        s2 = random_space(rng, (d2 % 5) + 1 if d2 == d1 else d2, kind=rng.choice(KINDS[1::2]))
+                        s1 = random_space(chk, d1, kind=rng.choice(KINDS[1::2]))
+                        s2 = random_space(chk, (d2 % 5) + 1 if d2 == d1 else d2, kind=rng.choice(KINDS[1::2]))
+                    else:
+                        s1 = random_space(chk, d1, force_general=(d1 == 3))
+                        s2 = random_space(chk, d2, force_general=(d2 == 3))
+                if s1 is None or s2 is None:
+                    continue
                 check_2d(chk, drv, s1, s2, rng, chk.n(5, 7))
     except Abort:
         chk.notes['aborted'] = 'stopped after %d hangs/exceptions of the real code' % MAX_CRASHES
